@@ -1,4 +1,5 @@
 import SlimProofs.Legacy3Wire
+import SlimProofs.Legacy3Size
 import SlimProps.C06Legacy3
 import SlimProps.C06Wire
 import SlimProps.C06View
@@ -22,8 +23,15 @@ import SlimProps.C07Wire
    * `hcount`  `32 · n + 143 < 2^31`: the old trie has at most `2n + 1` nodes
                (`buildOld_size_le`) and the children section stores 16 bits per inner node with
                int32 counters (`BMElts.N`, the rank indexes) — beyond that Go's own fields overflow;
-   * `hbody`   each section's protobuf body can be allocated (`BodyOK`, ≤ 2^48 bytes).
-  For the 0.5.10 family: `Refine.Small t` and `BodyOK` as in `C06Wire`, fixed-width values.
+   * `hwn`     `w · (2n + 1) < 2^47`: the leaves section can be allocated (`make([]byte, n)` of the
+               frame reader; the other two sections are bounded by `hcount` alone —
+               `sections3_bodyOK`).
+  All three-section hypotheses are about `keys`, `vals`, `w` only.
+  For the 0.5.10 family: `Refine.Small t` and `BodyOK` of the body as in `C06Wire`; the values are
+  described by `hw : ∀ v ∈ vals, v.length = w` alone (`build_elts_fixed`).
+  The empty key set (excluded by `hne` above) is `C06_load_legacy_3section_empty` /
+  `C06_load_legacy_0510_empty`; the single-key set is an instance of the general theorems
+  (`C06_load_legacy_3section_single`).
 -/
 open Wire Frame Version Legacy LegacyWrite LegacyConvert Refine
 
@@ -99,9 +107,7 @@ theorem C06_load_legacy_3section (variant : String) (keys vals : List Bytes) (w 
     (hwr : writeLegacy3 variant keys vals = .ok stream)
     (hne : keys ≠ []) (hasc : strictAsc keys = true) (hlen : vals.length = keys.length)
     (hw : ∀ v ∈ vals, v.length = w) (hkl : ∀ k ∈ keys, 2 * k.length < 65535)
-    (hcount : 32 * keys.length + 143 < 2 ^ 31)
-    (hbody : ∀ vr ch st lv, sections3 vr keys vals = .ok (ch, st, lv) →
-      BodyOK (encodeArray32 ch) ∧ BodyOK (encodeArray32 st) ∧ BodyOK (encodeArray32 lv))
+    (hcount : 32 * keys.length + 143 < 2 ^ 31) (hwn : w * (2 * keys.length + 1) < 2 ^ 47)
     (σ : Instance) :
     let r := Instance.unmarshal σ (some w) stream
     let v := Slim.view r.1.inner
@@ -119,7 +125,7 @@ theorem C06_load_legacy_3section (variant : String) (keys vals : List Bytes) (w 
       = .ok { levels := r.1.levels, keyCnt := keys.length, nodeCnt := nodeCnt }) := by
   intro r v
   obtain ⟨vr, ch, st, lv, hp, hsec, _⟩ := writeLegacy3_inv variant keys vals stream hwr
-  obtain ⟨hbc, hbs, hbl⟩ := hbody vr ch st lv hsec
+  obtain ⟨hbc, hbs, hbl⟩ := sections3_bodyOK vr keys vals w ch st lv hsec hcount hw hwn
   obtain ⟨t', hconv⟩ := C06_convert_ok_legacy3 vr keys vals w ch st lv hne hasc hlen hw hkl hsec
   obtain ⟨_, lvl, _, hinst, hstat⟩ := C06_load_legacy3 variant vr keys vals w ch st lv stream hp hsec hwr
     hne hasc hlen hw hkl hcount hbc hbs hbl t' hconv σ
@@ -147,8 +153,7 @@ theorem C06_load_legacy_0510 (mode ver : String) (keys vals : List Bytes) (opt :
     (hwr : write0510 mode ver keys vals = .ok stream)
     (hb : build keys (some vals) opt = .ok t) (hk : keys ≠ []) (hsm : Small t)
     (hbody : BodyOK (to0510 (Slim.encodeCreator t)))
-    (es : List Bytes) (helts : t.elts = some es) (hw : 0 < w) (hne : es ≠ [])
-    (hes : ∀ v ∈ es, v.length = w) (σ : Instance) :
+    (hw : 0 < w) (hvw : ∀ v ∈ vals, v.length = w) (σ : Instance) :
     let r := Instance.unmarshal σ (some w) stream
     let v := Slim.view r.1.inner
     let mask := keepMask keys.length (some vals) opt.dedup
@@ -165,6 +170,7 @@ theorem C06_load_legacy_0510 (mode ver : String) (keys vals : List Bytes) (opt :
       = .ok { levels := r.1.levels, keyCnt := (retained keys (some vals) opt.dedup).length,
               nodeCnt := nodeCnt }) := by
   intro r v mask
+  obtain ⟨es, helts, hne, hes⟩ := build_elts_fixed keys vals opt t w hb hk hvw
   have hstream := C06_write0510_stream mode ver keys vals opt t hmode hver hk hb
   rw [hwr] at hstream
   simp only [Except.ok.injEq] at hstream
@@ -213,7 +219,104 @@ theorem C06_truncated_legacy3_stream (variant : String) (vr : Variant) (keys val
   have hm := unmarshalMsg_of_dispatch_error e _ _ h
   exact ⟨hm, by rw [Instance.unmarshal_error_inner σ e _ _ hm]⟩
 
-/-! ### non-vacuity: five keys, one variant of each family -/
+/-! ### the empty key set -/
+
+/-- what the empty-trie conclusion says about a load result -/
+def EmptyLoaded (r : Instance × Option Err) : Prop :=
+  r.2 = none ∧ r.1.varsNil = false ∧ r.1.levels = [(0, 0, 0)] ∧
+  (∀ q, getID (Slim.view r.1.inner) q = .ok none ∧ get (Slim.view r.1.inner) q = .ok none ∧
+    rangeGet (Slim.view r.1.inner) q = .ok none ∧ search (Slim.view r.1.inner) q = .ok (none, none, none)) ∧
+  (∀ start incl withValue keep stopAfter,
+    Scan.scanFrom (Slim.view r.1.inner) start incl withValue keep stopAfter = .ok []) ∧
+  Slim.stat r.1.inner r.1.levels = .ok { levels := [(0, 0, 0)], keyCnt := 0, nodeCnt := 0 }
+
+/-- a load whose message has no `NodeTypeBM` gives the empty trie -/
+theorem emptyLoaded_of (σ : Instance) (e : Option Nat) (stream : Bytes) (m : SlimMsg)
+    (hm : unmarshalMsg e stream = .ok m) (hn : m.nodeTypeBM = none) :
+    EmptyLoaded (Instance.unmarshal σ e stream) := by
+  have hi : Instance.init m = .ok { inner := m, levels := [(0, 0, 0)] } := by
+    unfold Instance.init; rw [initLevels_of_none m hn]; rfl
+  have hr : Instance.unmarshal σ e stream = (⟨m, [(0, 0, 0)], false⟩, none) := by
+    unfold Instance.unmarshal
+    rw [hm]
+    simp only [hi]
+  have he : (Slim.view m).isEmpty = true := by
+    show m.nodeTypeBM.isNone = true
+    rw [hn]; rfl
+  unfold EmptyLoaded
+  rw [hr]
+  refine ⟨rfl, rfl, rfl, ?_, ?_, stat_of_none m hn⟩
+  · intro q
+    exact ⟨EmptyView.getID_empty _ he q, EmptyView.get_empty _ he q, EmptyView.rangeGet_empty _ he q,
+      EmptyView.search_empty _ he q⟩
+  · intro start incl withValue keep stopAfter
+    exact EmptyView.scanFrom_empty _ he start incl withValue keep stopAfter
+
+/-- (5a) **The empty key set, three-section layouts.**  For every variant, the writer's stream for
+    `keys = []` (three frames whose messages hold no node) loads without error into any instance,
+    with any encoder; every lookup and scan then answers as the empty trie and `Stat` reports 0 keys
+    and 0 nodes (`EmptyLoaded`). -/
+theorem C06_load_legacy_3section_empty (variant : String) (vals : List Bytes) (stream : Bytes)
+    (hwr : writeLegacy3 variant [] vals = .ok stream) (e : Option Nat) (σ : Instance) :
+    EmptyLoaded (Instance.unmarshal σ e stream) := by
+  obtain ⟨vr, ch, st, lv, hp, hsec, hs⟩ := writeLegacy3_inv variant [] vals stream hwr
+  rw [sections3_nil] at hsec
+  simp only [Except.ok.injEq, Prod.mk.injEq] at hsec
+  obtain ⟨rfl, rfl, rfl⟩ := hsec
+  have hsec' : sections3 vr [] [] = .ok (childrenMsg vr [] 0, stepsMsg [] 0, leavesMsg [] #[]) :=
+    sections3_nil vr []
+  obtain ⟨hbc, hbs, hbl⟩ := sections3_bodyOK vr [] [] 0 _ _ _ hsec' (by decide) (by simp) (by decide)
+  obtain ⟨b1, b2, b3⟩ := sections3_nil_bitmaps vr
+  have hd := dispatch_legacy3 vr [] [] _ _ _ (parseVariant_header variant vr hp) hsec'
+    (by intro nodes hb; rw [buildOld_nil] at hb; cases hb; decide) hbc hbs hbl
+  have hm : unmarshalMsg e stream = .ok (Slim.encodeCreator emptyConverted) := by
+    unfold unmarshalMsg
+    rw [hs, hd]
+    show (convert _ _ _ e >>= fun t => pure (Slim.encodeCreator t)) = _
+    rw [convert_empty _ _ _ e b1 b2 b3]
+    rfl
+  exact emptyLoaded_of σ e stream _ hm encodeCreator_emptyConverted_nodeTypeBM
+
+/-- (5b) **The empty key set, 0.5.10 / 0.5.11.**  Every mode writes an empty body; it loads without
+    error into any instance, which is then the empty trie. -/
+theorem C06_load_legacy_0510_empty (mode ver : String) (opt : Opt) (vals : List Bytes) (stream : Bytes)
+    (hmode : optOfMode mode = some opt) (hver : ver = "0.5.10" ∨ ver = "0.5.11")
+    (hwr : write0510 mode ver [] vals = .ok stream) (e : Option Nat) (σ : Instance) :
+    EmptyLoaded (Instance.unmarshal σ e stream) := by
+  have hstream : stream = frame ver [] := by
+    unfold write0510 at hwr
+    have hv : (ver != "0.5.10" && ver != "0.5.11") = false := by
+      rcases hver with rfl | rfl <;> decide
+    simp only [hmode, hv] at hwr
+    have : (pure (frame ver []) : Except Err Bytes) = .ok stream := hwr
+    cases this
+    rfl
+  rw [hstream]
+  exact emptyLoaded_of σ e _ {} (C06_load_0510_empty ver hver e σ).1 rfl
+
+/-! ### the single-key set -/
+
+/-- (6) **A single key, three-section layouts**: the general theorem at `keys = [k]`, `vals = [x]`.
+    The loaded instance finds `k` with `x` (nil when the width is 0), has no neighbours, and reports
+    one key. -/
+theorem C06_load_legacy_3section_single (variant : String) (k x : Bytes) (stream : Bytes)
+    (hwr : writeLegacy3 variant [k] [x] = .ok stream) (hkl : 2 * k.length < 65535)
+    (hx : x.length * 3 < 2 ^ 47) (σ : Instance) :
+    let r := Instance.unmarshal σ (some x.length) stream
+    let v := Slim.view r.1.inner
+    r.2 = none ∧
+    get v k = .ok (some (C06L3.val x.length [x] 0)) ∧
+    rangeGet v k = .ok (some (C06L3.val x.length [x] 0)) ∧
+    search v k = .ok (none, some (C06L3.val x.length [x] 0), none) ∧
+    (∃ nodeCnt, Slim.stat r.1.inner r.1.levels = .ok { levels := r.1.levels, keyCnt := 1, nodeCnt := nodeCnt }) := by
+  intro r v
+  have h := C06_load_legacy_3section variant [k] [x] x.length stream hwr (by simp) (by simp [strictAsc])
+    rfl (by simp) (by simpa using hkl) (by simp) (by simpa [Nat.mul_comm] using hx) σ
+  obtain ⟨h1, _, h3, _, h5⟩ := h
+  obtain ⟨g1, g2, g3⟩ := h3 0 (by simp)
+  exact ⟨h1, by simpa using g1, by simpa using g2, by simpa using g3, by simpa using h5⟩
+
+/-! ### non-vacuity: five keys, one variant of each family; one key; no key -/
 
 namespace C06L3W
 
@@ -225,41 +328,29 @@ open C06L3.Ex in
 example (σ : Instance) : ∃ stream, writeLegacy3 "0.5.9" keys vals = .ok stream ∧
     (Instance.unmarshal σ (some 1) stream).2 = none ∧
     get (Slim.view (Instance.unmarshal σ (some 1) stream).1.inner) [0x61, 0x62] = .ok (some (some [2])) := by
-  have hok : ((writeLegacy3 "0.5.9" keys vals).toBool &&
-      (match sections3 vr keys vals with
-       | .ok (ch, st, lv) => decide ((encodeArray32 ch).length ≤ maxAlloc) &&
-           decide ((encodeArray32 st).length ≤ maxAlloc) && decide ((encodeArray32 lv).length ≤ maxAlloc)
-       | .error _ => false)) = true := by decide +kernel
-  simp only [Bool.and_eq_true] at hok
-  obtain ⟨hw1, hw2⟩ := hok
+  have hok : (writeLegacy3 "0.5.9" keys vals).toBool = true := by decide +kernel
   match hs : writeLegacy3 "0.5.9" keys vals with
-  | .error e => rw [hs] at hw1; cases hw1
+  | .error e => rw [hs] at hok; cases hok
   | .ok stream =>
-    have hbody : ∀ vr' ch st lv, sections3 vr' keys vals = .ok (ch, st, lv) → vr' = vr →
-        BodyOK (encodeArray32 ch) ∧ BodyOK (encodeArray32 st) ∧ BodyOK (encodeArray32 lv) := by
-      intro vr' ch st lv h hv
-      subst hv
-      rw [h] at hw2
-      simp only [Bool.and_eq_true, decide_eq_true_eq] at hw2
-      exact ⟨hw2.1.1, hw2.1.2, hw2.2⟩
-    obtain ⟨vr', ch, st, lv, hp, hsec, _⟩ := writeLegacy3_inv "0.5.9" keys vals stream hs
-    have hvr : vr' = vr := by
-      have : parseVariant "0.5.9" = some vr := by decide
-      rw [this] at hp; cases hp; rfl
-    rw [hvr] at hp hsec
-    obtain ⟨hbc, hbs, hbl⟩ := hbody _ ch st lv hsec rfl
-    have hne : keys ≠ [] := by decide
-    have hasc : strictAsc keys = true := by decide
-    have hlen : vals.length = keys.length := rfl
-    have hw : ∀ x ∈ vals, x.length = 1 := by decide
-    have hkl : ∀ k ∈ keys, 2 * k.length < 65535 := by decide
-    have hcount : 32 * keys.length + 143 < 2 ^ 31 := by decide
-    obtain ⟨t', hconv⟩ := C06_convert_ok_legacy3 vr keys vals 1 ch st lv hne hasc hlen hw hkl hsec
-    obtain ⟨_, lvl, _, hinst, _⟩ := C06_load_legacy3 "0.5.9" vr keys vals 1 ch st lv stream hp hsec hs
-      hne hasc hlen hw hkl hcount hbc hbs hbl t' hconv σ
-    refine ⟨stream, rfl, by rw [hinst], ?_⟩
-    rw [hinst]
-    exact C06_get_legacy3 vr keys vals 1 ch st lv hne hasc hlen hw hkl hsec t' hconv 1 (by decide)
+    have h := C06_load_legacy_3section "0.5.9" keys vals 1 stream hs (by decide) (by decide) rfl
+      (by decide) (by decide) (by decide) (by decide) σ
+    obtain ⟨h1, _, h3, _, _⟩ := h
+    exact ⟨stream, rfl, h1, (h3 1 (by decide)).1⟩
+
+/-- a single key "k" ↦ [7] in the oldest variant (0.5.0: uint32 children, steps on leaves) -/
+example (σ : Instance) : ∃ stream, writeLegacy3 "0.5.0" [[0x6b]] [[7]] = .ok stream ∧
+    get (Slim.view (Instance.unmarshal σ (some 1) stream).1.inner) [0x6b] = .ok (some (some [7])) := by
+  have hok : (writeLegacy3 "0.5.0" [[0x6b]] [[7]]).toBool = true := by decide +kernel
+  match hs : writeLegacy3 "0.5.0" [[0x6b]] [[7]] with
+  | .error e => rw [hs] at hok; cases hok
+  | .ok stream =>
+    exact ⟨stream, rfl, (C06_load_legacy_3section_single "0.5.0" [0x6b] [7] stream hs (by decide) (by decide) σ).2.1⟩
+
+/-- no key: every three-section variant and every 0.5.10 mode produce a stream -/
+example : ∀ v ∈ ["0.5.0", "0.5.3", "0.5.4", "0.5.7", "0.5.8", "0.5.9"],
+    (writeLegacy3 v [] []).toBool = true := by decide +kernel
+example : ∀ m ∈ ["nopref", "innpref", "allpref"], ∀ v ∈ ["0.5.10", "0.5.11"],
+    (write0510 m v [] []).toBool = true := by decide +kernel
 
 open C06L3.Ex in
 /-- the allpref-0.5.10 stream of the same five keys satisfies every hypothesis of
@@ -272,10 +363,8 @@ example (σ : Instance) : ∃ stream, write0510 "allpref" "0.5.10" keys vals = .
     ∀ q, ∃ a, search (Slim.view (Instance.unmarshal σ (some 1) stream).1.inner) q = .ok a := by
   have hopt : optOfMode "allpref" = some { inner := true, leaf := true } := by decide
   have h : ((build keys (some vals) { inner := true, leaf := true }).toOption.map (fun t =>
-      smallB t && (decide ((to0510 (Slim.encodeCreator t)).length ≤ maxAlloc) &&
-        (match t.elts with
-         | some es => !es.isEmpty && es.all (fun v => v.length == 1)
-         | none => false)))) = some true := by decide +kernel
+      smallB t && decide ((to0510 (Slim.encodeCreator t)).length ≤ maxAlloc))) = some true := by
+    decide +kernel
   have hret : (retained keys (some vals) true).length = 5 := by decide
   match hb : build keys (some vals) { inner := true, leaf := true } with
   | .error e => rw [hb] at h; cases h
@@ -283,20 +372,15 @@ example (σ : Instance) : ∃ stream, write0510 "allpref" "0.5.10" keys vals = .
     rw [hb] at h
     simp only [Except.toOption, Option.map_some, Option.some.injEq, Bool.and_eq_true,
       decide_eq_true_eq] at h
-    obtain ⟨h1, h2, h3⟩ := h
-    match he : t.elts with
-    | none => rw [he] at h3; cases h3
-    | some es =>
-      rw [he] at h3
-      simp only [Bool.and_eq_true, Bool.not_eq_true', List.all_eq_true, beq_iff_eq] at h3
-      have hk : keys ≠ [] := by decide
-      have hstream := C06_write0510_stream "allpref" "0.5.10" keys vals _ t hopt (Or.inl rfl) hk hb
-      have hall := C06_load_legacy_0510 "allpref" "0.5.10" keys vals _ t 1 _ hopt (Or.inl rfl) hstream hb hk
-        (small_of_smallB h1) h2 es he (by omega) (by intro h0; rw [h0] at h3; simp at h3) h3.2 σ
-      obtain ⟨r1, _, _, _, r5, r6⟩ := hall
-      refine ⟨_, hstream, r1, ?_, fun q => (r5 q).2.2.2⟩
-      obtain ⟨n, hn⟩ := r6
-      exact ⟨n, by rw [hn]; simp only [hret]⟩
+    obtain ⟨h1, h2⟩ := h
+    have hk : keys ≠ [] := by decide
+    have hstream := C06_write0510_stream "allpref" "0.5.10" keys vals _ t hopt (Or.inl rfl) hk hb
+    have hall := C06_load_legacy_0510 "allpref" "0.5.10" keys vals _ t 1 _ hopt (Or.inl rfl) hstream hb hk
+      (small_of_smallB h1) h2 (by omega) (by decide) σ
+    obtain ⟨r1, _, _, _, r5, r6⟩ := hall
+    refine ⟨_, hstream, r1, ?_, fun q => (r5 q).2.2.2⟩
+    obtain ⟨n, hn⟩ := r6
+    exact ⟨n, by rw [hn]; simp only [hret]⟩
 
 end C06L3W
 
@@ -305,3 +389,6 @@ end C06L3W
 #print axioms C06_load_legacy_3section
 #print axioms C06_load_legacy_0510
 #print axioms C06_truncated_legacy3_stream
+#print axioms C06_load_legacy_3section_empty
+#print axioms C06_load_legacy_0510_empty
+#print axioms C06_load_legacy_3section_single
